@@ -126,7 +126,7 @@ func applyEnd(m *Model, op Op, frags map[string]*Fragment) {
 	switch op.End {
 	case "", "confirm", "none":
 		m.Apply(op, frags)
-	case "cancel":
+	case "cancel", "expire":
 		// rolled back: the model does not change
 	}
 }
